@@ -585,6 +585,15 @@ class Env:
                 diverged = True
             else:
                 res.count("failed:%s:%s" % (pred["reason"], type(exc).__name__))
+                # a message whose content did not verify must leave the handshake where it was: a state that moved on
+                # lets the rest of the (genuine) flight finish the handshake if the caller keeps feeding it
+                res.count("failed_verifications_state_checked")
+                if obs["after"] != st:
+                    res.violation("failed-verification-changed-state:%s:%s" % (where, pred["reason"]),
+                                  "%s failed verification (%s, %r) yet the state went %s -> %s" % (tn, pred["reason"], exc, st, obs["after"]), self.case, witness())
+                    diverged = True
+                for d, e, _ in obs["keys"]:
+                    res.violation("failed-verification-installed-keys:%s:%s:%s" % (where, e, d), "traffic-key callback fired during a call that failed verification", self.case, witness())
         elif kind == "EITHER":
             res.count("either_checked")
             if exc is None:
